@@ -1,7 +1,7 @@
 """Hand-built mini schema sets that contain exactly one quarantined feature each: they re-confirm an open finding on every
 run (and show when it has disappeared), while ordinary generated programs avoid the feature."""
-from .model import (Attr, ComplexType, Content, ElementRef, Facets, GlobalElement, Group, LocalElement, Name, SchemaFile, SchemaSet,
-                    SimpleType, TypeRef)
+from .model import (Attr, ComplexType, Content, ElementRef, Facets, GlobalElement, Group, LocalElement, Message, Name, Operation, Part,
+                    SchemaFile, SchemaSet, SimpleType, TypeRef, Wsdl)
 
 
 def _file(idx, uri, prefixes, imports=()):
@@ -142,6 +142,50 @@ def order_family(perm, default_ns=False, two_files=False):
     if two_files:
         feats.add("twin-file")
     return SchemaSet(files, start, None, feats)
+
+
+def mutual_inline_family():
+    """One WSDL, two inline schemas that refer to each other: Invoice (schema 1) extends / refers to Document (schema 2), which
+    extends / refers to Party (schema 1). All orders of the two schemas and of Invoice and Party inside schema 1, by base= and by
+    ref=: whichever component is read ahead of its turn must find what it refers to, wherever in the document that is."""
+    out = []
+    for via in ("base", "ref"):
+        for schema_order in ((0, 1), (1, 0)):
+            for invoice_first in (True, False):
+                f0 = _file(0, "http://zv.test/mutual/orders", {0: "ord", 1: "doc"}, [1])
+                f1 = _file(1, "http://zv.test/mutual/documents", {1: "doc", 0: "ord"}, [0])
+                f0.filename = "service.wsdl"
+                party = ComplexType(N("party"), Content(Group("sequence", 1, 1, [LocalElement(N("name"), TypeRef("string"))]),
+                                                        [Attr(N("code"), TypeRef("int"), False)]), file=0)
+                party_el = GlobalElement(N("party", "entry"), content=Content(Group("sequence", 1, 1, [LocalElement(N("who"), TypeRef("string"))]), []), file=0)
+                if via == "base":
+                    document = ComplexType(N("document"), Content(Group("sequence", 1, 1, [LocalElement(N("id"), TypeRef("long"))]), []),
+                                           base=TypeRef(party.name.xml, 0, party), file=1)
+                    invoice = ComplexType(N("invoice"), Content(Group("sequence", 1, 1, [LocalElement(N("amount"), TypeRef("decimal"))]), []),
+                                          base=TypeRef(document.name.xml, 1, document), file=0)
+                    f1.components = [document]
+                else:
+                    document_el = GlobalElement(N("document", "entry"), content=Content(Group("sequence", 1, 1, [
+                        ElementRef(TypeRef(party_el.name.xml, 0, party_el)), LocalElement(N("id"), TypeRef("long"))]), []), file=1)
+                    invoice = ComplexType(N("invoice"), Content(Group("sequence", 1, 1, [
+                        ElementRef(TypeRef(document_el.name.xml, 1, document_el)), LocalElement(N("amount"), TypeRef("decimal"))]), []), file=0)
+                    f1.components = [document_el]
+                submit = GlobalElement(N("submit"), content=Content(Group("sequence", 1, 1, [LocalElement(N("invoice"), TypeRef(invoice.name.xml, 0, invoice))]), []), file=0)
+                tail = [party, party_el]
+                f0.components = ([invoice] + tail if invoice_first else tail + [invoice]) + [submit]
+                m_in = Message(N("submit", "in"), [Part(N("parameters"), TypeRef(submit.name.xml, 0, submit))])
+                op = Operation(N("submit"), m_in, None, [], [], N("parameters"), None)
+                op.in_parts_attr = False
+                op.soap_action = "http://zv.test/mutual/actions/Submit"
+                w = Wsdl("http://zv.test/mutual/wsdl", N("mutual"), N("mutual", "port"), N("mutual", "port", "type"), N("mutual", "binding"), [op],
+                         "http://127.0.0.1:9/mutual")
+                w.share_prefix = False
+                ss = SchemaSet([f0, f1], "service.wsdl", w, {"mutual-inline-schemas", "several-inline-schemas", "wsdl", "extension" if via == "base" else "element-ref",
+                                                            "one-way", "wsdl-namespace-differs-from-inline-schema"})
+                ss.inline_all = True
+                ss.inline_order = list(schema_order)
+                out.append((f"mutual-inline:{via}:schemas={schema_order[0]}{schema_order[1]}:{'invoice-first' if invoice_first else 'invoice-last'}", ss))
+    return out
 
 
 def order_family_programs(r, n):
